@@ -4,6 +4,7 @@ import (
 	"fmt"
 	"go/ast"
 	"go/token"
+	"strconv"
 	"strings"
 )
 
@@ -13,6 +14,7 @@ import (
 // change of meaning breaks the proof.
 
 type exprDef struct {
+	intVal bool     // the definition is Int-valued (an arithmetic expression), not a condition
 	params []string // Lean parameter names, all of type Int
 	body   string   // Lean term of type Bool; "" = anchor missing or not translatable
 	src    string   // Go source of the expression (for the replay / evidence)
@@ -27,9 +29,27 @@ func leanInt(e ast.Expr, atoms map[string]string) (string, error) {
 		return leanInt(x.X, atoms)
 	case *ast.BasicLit:
 		if x.Kind == token.INT {
-			return "(" + x.Value + " : Int)", nil
+			if v, err := strconv.ParseInt(strings.ReplaceAll(x.Value, "_", ""), 0, 64); err == nil {
+				return fmt.Sprintf("(%d : Int)", v), nil
+			}
 		}
 	case *ast.BinaryExpr:
+		// arithmetic shift right by a constant = floor division, and a low-bit mask = Euclidean remainder (also for negative
+		// operands in two's complement); Lean's `/` and `%` on Int are exactly these
+		if lit, ok := x.Y.(*ast.BasicLit); ok && lit.Kind == token.INT && (x.Op == token.SHR || x.Op == token.AND) {
+			if v, err := strconv.ParseInt(strings.ReplaceAll(lit.Value, "_", ""), 0, 64); err == nil {
+				a, err := leanInt(x.X, atoms)
+				if err != nil {
+					return "", err
+				}
+				if x.Op == token.SHR && v >= 0 && v < 62 {
+					return fmt.Sprintf("(%s / (%d : Int))", a, int64(1)<<uint(v)), nil
+				}
+				if x.Op == token.AND && v > 0 && (v+1)&v == 0 {
+					return fmt.Sprintf("(%s %% (%d : Int))", a, v+1), nil
+				}
+			}
+		}
 		op := map[token.Token]string{token.ADD: "+", token.SUB: "-", token.MUL: "*", token.QUO: "/"}[x.Op]
 		if op != "" {
 			a, err := leanInt(x.X, atoms)
@@ -178,6 +198,70 @@ func (f *facts) boolFunc(name, note string, fd *ast.FuncDecl, params []string, a
 			d.body = b
 		} else {
 			d.src += "  -- " + err.Error()
+		}
+	}
+	f.exprs[name] = d
+}
+
+// arith registers the translation of an integer-valued expression.
+func (f *facts) arith(name, note string, e ast.Expr, params []string, atoms map[string]string) {
+	f.note[name] = note
+	d := exprDef{params: params, intVal: true}
+	if e != nil {
+		d.src = src(e)
+		if b, err := leanInt(e, atoms); err == nil {
+			d.body = b
+		} else {
+			d.src += "  -- " + err.Error()
+		}
+	}
+	f.exprs[name] = d
+}
+
+// switchClass translates a tagless `switch { case c0: … case c1: … default: … }` into the index of the branch taken.
+func (f *facts) switchClass(name, note string, sw *ast.SwitchStmt, params []string, atoms map[string]string) {
+	f.note[name] = note
+	d := exprDef{params: params, intVal: true}
+	if sw != nil && sw.Tag == nil && sw.Init == nil {
+		var heads []string
+		for _, c := range sw.Body.List {
+			cc := c.(*ast.CaseClause)
+			if cc.List == nil {
+				heads = append(heads, "default")
+			} else {
+				heads = append(heads, "case "+src(cc.List[0]))
+			}
+		}
+		d.src = strings.Join(heads, "; ")
+		body, ok := "", true
+		closing := ""
+		for i, c := range sw.Body.List {
+			cc := c.(*ast.CaseClause)
+			if cc.List == nil {
+				if i != len(sw.Body.List)-1 {
+					ok = false
+				}
+				body += fmt.Sprintf("(%d : Int)", i)
+				continue
+			}
+			if len(cc.List) != 1 {
+				ok = false
+				break
+			}
+			b, err := leanBool(cc.List[0], atoms)
+			if err != nil {
+				d.src += "  -- " + err.Error()
+				ok = false
+				break
+			}
+			body += fmt.Sprintf("(if %s then (%d : Int) else ", b, i)
+			closing += ")"
+			if i == len(sw.Body.List)-1 { // no default: falling through all cases
+				body += fmt.Sprintf("(%d : Int)", i+1)
+			}
+		}
+		if ok {
+			d.body = body + closing
 		}
 	}
 	f.exprs[name] = d
